@@ -14,4 +14,5 @@ INVARIANTS
   C06_Complete
   C06_Successor
   C06_Frame
+  C06_NoBypassWithoutOperator
   Dump
